@@ -412,12 +412,34 @@ def s_len(cx):
             cands.append([0] + [r.choice(shortest) for _ in range(15)])
         for k in range(cx.n(6, 60)):
             cands.append([0] + [r.randrange(2048) for _ in range(15)])
+        # exact extremal witnesses: all 16 words (check word included) of maximal length, the
+        # reserved feature bit clear (it is the low bit of the third word)
+        mx = len(ws[order[-1]])
+        for tol in (0, 1, 2, 3):
+            top = [j for j in range(2048) if len(ws[j]) >= mx - tol]
+            found = 0
+            for attempt in range(6000):
+                idx = [0] + [r.choice(top) for _ in range(15)]
+                if idx[2] & 1:
+                    continue
+                sec_, b_, f_ = P.seed_of_indices(idx, 0)
+                if len(ws[P.indices(sec_, b_, f_, 0)[0]]) >= mx - tol:
+                    cands.append(idx)
+                    found += 1
+                    if found >= cx.n(2, 10):
+                        break
+            if found:
+                break
         for idx in cands:
             # features must be loadable: clear reserved bits by enabling all user features
             sec, b, f = P.seed_of_indices(idx, 0)
             f &= 23
             # choose the coin so that the check word is long too: try a few
             L += ["reset", "enable mask=7", load_op(sec, b, f)]
+            L.append("encode h=0 lang=%d coin=0" % li)
+            ph0 = cx.langs.phrase(li, P.indices(sec, b, f, 0))
+            L.append("decodex coin=0 lang=%d str=%s ok=1" % (li, hx(ph0)))
+            L.append("decode coin=0 str=%s ok=1" % hx(ph0 + b" "))
             coin = r.randrange(2048)
             L.append("encode h=0 lang=%d coin=%d" % (li, coin))
             full = P.indices(sec, b, f, coin)
